@@ -80,9 +80,14 @@ class LatticeProxy(_pmg_lattice()):
             best = q if best is None else ite(q < best, q, best)
         return best
 
+    @staticmethod
+    def _concrete(a):
+        arr = np.asarray(a, dtype=object)
+        return not any(isinstance(v, (Sym, Fraction)) for v in arr.ravel().tolist())
+
     def get_all_distances(self, a, b):
         self.calls += 1
-        if not has_sym(a) and not has_sym(b):
+        if (not has_sym(a) or self._concrete(a)) and (not has_sym(b) or self._concrete(b)):
             return self._lat.get_all_distances(np.asarray(a, dtype=float), np.asarray(b, dtype=float))
         a = np.atleast_2d(np.asarray(S(a)))
         b = np.atleast_2d(np.asarray(S(b)))
